@@ -1481,3 +1481,57 @@ func CallsToWithHelpers(fn *ssa.Function, name string, maxBlocks int) []ssa.Call
 	}
 	return out
 }
+
+// SameExpr: a and b are the same value, loads of the same place, or calls of
+// the same statically resolved function / method (or the same interface method)
+// on pairwise SameExpr arguments - i.e. one expression written twice. Only
+// meaningful for side-effect-free accessor chains (x.Id.Scrub().String()).
+func SameExpr(a, b ssa.Value) bool {
+	return sameExprDepth(a, b, 0)
+}
+
+func sameExprDepth(a, b ssa.Value, depth int) bool {
+	a, b = Strip(a), Strip(b)
+	if a == b || SameLoad(a, b) {
+		return true
+	}
+	if depth > 6 {
+		return false
+	}
+	if ka, ok := a.(*ssa.Const); ok {
+		kb, ok2 := b.(*ssa.Const)
+		return ok2 && ka.Value != nil && kb.Value != nil && ka.Value.ExactString() == kb.Value.ExactString()
+	}
+	ca, ok1 := a.(*ssa.Call)
+	cb, ok2 := b.(*ssa.Call)
+	if ok1 && ok2 {
+		if ca.Common().IsInvoke() != cb.Common().IsInvoke() {
+			return false
+		}
+		if ca.Common().IsInvoke() {
+			if ca.Common().Method != cb.Common().Method || !sameExprDepth(ca.Common().Value, cb.Common().Value, depth+1) {
+				return false
+			}
+		} else {
+			fa, fb := ca.Common().StaticCallee(), cb.Common().StaticCallee()
+			if fa == nil || fa != fb {
+				return false
+			}
+		}
+		if len(ca.Common().Args) != len(cb.Common().Args) {
+			return false
+		}
+		for i := range ca.Common().Args {
+			if !sameExprDepth(ca.Common().Args[i], cb.Common().Args[i], depth+1) {
+				return false
+			}
+		}
+		return true
+	}
+	fa, ok1 := a.(*ssa.FieldAddr)
+	fb, ok2 := b.(*ssa.FieldAddr)
+	if ok1 && ok2 {
+		return fa.Field == fb.Field && sameExprDepth(fa.X, fb.X, depth+1)
+	}
+	return false
+}
